@@ -125,6 +125,7 @@ func (r *GroupRouter) loadAll(ctx context.Context) (int64, error) {
 
 func (r *GroupRouter) watch(ctx context.Context, rev int64) {
 	for {
+		verifGate("router.beforeWatch", "group")
 		// Resume right after the revision the routing table reflects, so a
 		// lease change landing between loadAll and Watch is not lost.
 		watchChan := r.client.Watch(ctx, groupLeasePrefix+"/", clientv3.WithPrefix(), clientv3.WithPrevKV(), clientv3.WithRev(rev+1))
